@@ -526,7 +526,12 @@ HadFault == \E i \in ri .. l - 1 : Rec[i].e = "Done" /\ Rec[i].inj = 1
 \* a crash
 UncleanDrop == \E i \in ri .. l - 1 : Rec[i].e = "Drop" /\ Rec[i].unflushed > 0
 
-Inv_C03 == (FlushedNow /\ ~HadFault /\ ~UncleanDrop) => F!WellFormed(vis, G) /\ F!Exact(vis, G)
+\* (an image that starts with leaked clusters - builder option, or an L1 table with room behind the
+\*  entries its header lists - cannot become exact: it must not get worse)
+Inv_C03 == (FlushedNow /\ ~HadFault /\ ~UncleanDrop) =>
+             /\ F!WellFormed(vis, G)
+             /\ IF R0.leaks = 0 THEN F!Exact(vis, G)
+                ELSE F!Undercounted(vis, G) = {} /\ Cardinality(F!Leaked(vis, G)) <= R0.leaks
 \* ... but never an unusable one
 Inv_C03u == (FlushedNow /\ ~HadFault /\ UncleanDrop) => F!Safe(vis, G)
 
